@@ -118,6 +118,10 @@ def well_formed_cases(r: Run, keys):
         if max_abs(ts) > I32MAX // 4:
             continue
         out.append(render(ts))
+    # every per-key total fits i32, but the totals of DIFFERENT keys (of one group, of the whole formula) add up past it
+    out += ["(H2O)1000000000", "C(H2O)1000000000N", "((C[13]H3)1000N)500000", "(C2H2)1000000000", "H2147483647O2147483647",
+            "(H)2147483647(O)2147483647", "(HO)2147483647", "(C[13]C)2147483647", "((HO)2)1073741823", "(NaCl)2147483647H2147483647",
+            "(C2H4O2N2S2)1000000000"]
     # deep nesting
     for d in (10, 100, 500, 2000):
         out.append("(" * d + "C" + ")" * d)
@@ -134,6 +138,22 @@ def gap_isotopes(keys):
         for n in range(max(1, min(isos) - 2), max(isos) + 3):
             if n not in isos:
                 out += [f"{sym}[{n}]", f"{sym}[{n}]2", f"({sym}[{n}])2O"]
+    return out
+
+
+def wrapped_numbers(keys):
+    """numbers that are a valid isotope / a small count only after a narrowing cast: isotope + k*65536, count + k*2^32 (and
+    + 2^31): must be rejected, whichever integer type the digits are parsed as"""
+    out = []
+    for sym, isos in keys.items():
+        if not sym[0].isupper():
+            continue
+        for iso in (isos[:1] + isos[-1:]) if isos else [0]:
+            for k in (65536, 131072, 4294967296):
+                out += [f"{sym}[{iso + k}]", f"{sym}[{iso + k}]2", f"({sym}[{iso + k}]3)2"]
+    for body in ("C{}", "C[13]{}", "(CH2){}", "O(C){}H"):
+        for n in (4294967296 + 2, 4294967296 * 3 + 7, 2147483648 + 5, 18446744073709551616 + 1, 65536 * 65536 * 65536 + 1):
+            out.append(body.format(n))
     return out
 
 
@@ -168,6 +188,7 @@ def malformed_cases(r: Run, wf):
             out.append("".join(t))
     out += ["".join(rng.choice(pool) for _ in range(rng.randint(8, 64))) for _ in range(3000 if thorough else 400)]
     out += gap_isotopes(table_keys())
+    out += wrapped_numbers(table_keys())
     out += ["C[14]2", "C[14]", "C[0]", "C[]", "C[]2", "Ac[0]", "C[65536]", "C[99999999999]", "C99999999999", "C2147483648",
             "(C)99999999999", "H)", "Xx", "H ", "H-2", "Hé", "H]", "C[13", "C[1[3]]", "()", "(())", "(", ")", "(C", "C)", "((C)",
             "C[13]x", "C[+13]", "C[-1]", "C(", "C2(", "C[13](", "e*", "e*1", "c", "h2o", "C²", "C[²]", "C٣", "(C)²",
@@ -362,7 +383,16 @@ def run_display(r: Run):
             for f in forms:
                 lines.append(f"display\t{f}\t{pairs_str(cs)}")
                 meta.append((gi, cs, f))
-    impl = r.impl("formula", lines)
+    # every third composition takes every other key from a SECOND table instance with the same content (equal keys, other
+    # `Element` objects): the text, the parse-back, `==` and serde must not notice
+    ilines = []
+    for n, (line, (gi, cs, f)) in enumerate(zip(lines, meta)):
+        if n % 3 == 1 and cs:
+            ps = ",".join(f"{k[0]}:{k[1]}{'~2' if j % 2 == 0 else ''}={v}" for j, (k, v) in enumerate(cs))
+            ilines.append(f"display\t{f}\t{ps}")
+        else:
+            ilines.append(line)
+    impl = r.impl("formula", ilines)
     model = r.model("formula", lines)
     corr_ok = True
     texts = {}
